@@ -554,6 +554,16 @@ class Fn:
             name, ptypes = self.tr.ctor_def(ci, node, self)
             args = self.bind_args(ci.methods['__init__'], node, ptypes, drop_self=True)
             return f"({name} {' '.join(args)})" if args else name, ('obj', ci)
+        # method of a freshly constructed, field-less helper object:  DtcLamp().get_status(a, b)
+        if isinstance(f, ast.Attribute) and isinstance(f.value, ast.Call) and not f.value.args and not f.value.keywords:
+            cn = ast.unparse(f.value.func).split('.')[-1]
+            if cn in self.tr.classes and not self.tr.classes[cn].fields and f.attr in self.tr.classes[cn].methods:
+                ci2 = self.tr.classes[cn]
+                name, params, ret, selfp = self.tr.method_def(ci2, f.attr)
+                if selfp:
+                    raise TErr(f"{cn}().{f.attr} reads instance state")
+                args = self.bind_args(ci2.methods[f.attr], node, params, drop_self=True)
+                return f"({name} {' '.join(args)})", ret
         # method of self that is a translated unit
         if isinstance(f, ast.Attribute) and isinstance(f.value, ast.Name) and f.value.id == 'self' and self.ci is not None:
             m = f.attr
@@ -1012,6 +1022,11 @@ def expr_unit(tr, ci, fname, target, lean, params, occurrence=0, self_params=Non
         if is_test:
             if isinstance(n, (ast.If, ast.While, ast.IfExp)) and target in ast.unparse(n.test):
                 found.append(n.test)
+        elif target.startswith('call:'):
+            # call:<callee source>:<argument index>  — the given argument of the occurrence-th such call
+            _, callee, ai = target.split(':')
+            if isinstance(n, ast.Call) and ast.unparse(n.func) == callee and len(n.args) > int(ai):
+                found.append(n.args[int(ai)])
         elif isinstance(n, ast.Assign) and len(n.targets) == 1 and ast.unparse(n.targets[0]) == target:
             found.append(n.value)
     found.sort(key=lambda n: (n.lineno, n.col_offset))
@@ -1124,6 +1139,13 @@ def build(repo):
     attempt('DtcLamp.get_status', lambda: method_unit(tr, LAMP, 'get_status', 'DtcLamp.get_status'))
     attempt('Dm1.parse_dtc_int', lambda: expr_unit(tr, DM1, '_parse_dm1_receive_data', 'dtc_int', 'Dm1.parse_dtc_int',
                                                     [('i', 'nat')], self_params={'_data': L}))
+    for k in range(4):
+        attempt(f'Dm1.send_byte{k}', lambda k=k: expr_unit(tr, DM1, '_send', 'call:self._data.append:0', f'Dm1.send_byte{k}', [('dtc', 'nat')], k))
+    attempt('Dm1.send_pf', lambda: expr_unit(tr, DM1, '_send', 'call:self._ca.send_pgn:1', 'Dm1.send_pf', [], self_params={'_pgn': 'nat'}))
+    attempt('Dm1.send_ps', lambda: expr_unit(tr, DM1, '_send', 'call:self._ca.send_pgn:2', 'Dm1.send_ps', [], self_params={'_pgn': 'nat'}))
+    for k, nm in enumerate(['pl', 'awl', 'rsl', 'mil']):
+        attempt(f'Dm1.parse_lamp_{nm}', lambda k=k, nm=nm: expr_unit(tr, DM1, '_parse_dm1_receive_data', f"self._lamp_status['{nm}']", f'Dm1.parse_lamp_{nm}',
+                                                                       [], self_params={'_data': L}))
     attempt('Dm22.send_request', lambda: method_unit(tr, DM22, '_send_request', 'Dm22.send_request', self_params={'_pgn': 'nat'}))
     # --- J1939-21 frames and field extraction (C01, C03, C06, C09)
     attempt('Tp21.buffer_hash', lambda: method_unit(tr, D21, '_buffer_hash', 'Tp21.buffer_hash'))
